@@ -78,23 +78,16 @@ Proof. exact roundtrip_layout_dense_proof. Qed.
 Print Assumptions roundtrip_layout_dense.
 
 (* ---------------------------------------------------------------- to_numpy's order inversion *)
-(* Full statement: for every level order (a permutation of the axes) of rank 1..4, to_numpy returns
-   the array's shape and reads each element from the position MLIR stores it at.
-   It is FALSE of the code as it stands: `storage_shape` is gathered through the INVERSE order, which
-   is the level shape only when the order is its own inverse; see to_numpy_order_refuted (order
-   (1,2,0), shape (2,3,4) gives shape (3,4,2)).  Proved part: involutive orders (every rank <= 2,
-   "C", "F", any transposition), ranks 1..4 (the property's own bound). *)
-Theorem to_numpy_order_partial :
-  forall order, In order (perms_upto 4) -> involutive order = true ->
+(* for every level order (a permutation of the axes) of rank 1..4 — the property's own bound; proved by
+   enumerating the 33 permutations — to_numpy returns the array's shape and reads each element from the
+   position MLIR stores it at.  (Which sequence `storage_shape` is gathered through is the extracted
+   fact site_to_numpy_shape_by_inverse; with the pre-fix value `true` this statement does not prove.) *)
+Theorem to_numpy_order_correct :
+  forall order, In order (perms_upto 4) ->
   forall sh ix, length sh = length order -> length ix = length order ->
     to_numpy_shape order sh = sh /\ to_numpy_pos order sh ix = dense_pos order sh ix.
-Proof. exact to_numpy_order_partial_proof. Qed.
-Print Assumptions to_numpy_order_partial.
-
-Theorem to_numpy_order_refuted :
-  exists order sh, In order (perms_upto 4) /\ length sh = length order /\ to_numpy_shape order sh <> sh.
-Proof. exact to_numpy_order_refuted_proof. Qed.
-Print Assumptions to_numpy_order_refuted.
+Proof. exact to_numpy_order_correct_proof. Qed.
+Print Assumptions to_numpy_order_correct.
 
 (* ---------------------------------------------------------------- ownership protocol *)
 (* the extracted `_hold_ref` / attribute / owns_memory facts provide every edge the protocol needs;
